@@ -243,10 +243,10 @@ Proof.
 Qed.
 
 (* onLCPDown establishes the invariant from (almost) nothing *)
-Lemma on_lcp_down_T : forall rfc i acc,
-  T (fun s mn => acc = false -> alloc_pool s = false /\ cur4 s = ANone) (on_lcp_down (mkV true rfc) i) (Inv acc).
+Lemma on_lcp_down_T : forall rfc td i acc,
+  T (fun s mn => acc = false -> alloc_pool s = false /\ cur4 s = ANone) (on_lcp_down (mkV3 true rfc td) i) (Inv acc).
 Proof.
-  intros rfc i acc mn0 m H. unfold on_lcp_down. cbn [vrep].
+  intros rfc td i acc mn0 m H. unfold on_lcp_down. cbn [vrep].
   set (m0 := upd (set_pend None PtNone) m).
   set (m1 := ncp_apply i Ipcp fsm_down m0).
   set (m2 := ncp_apply i Ip6cp fsm_down m1).
@@ -300,7 +300,7 @@ Qed.
 
 Lemma lcp_apply_Inv : forall v i g acc, vrep v = true -> lcp_okg g -> T (Inv acc) (lcp_apply v i g) (Inv acc).
 Proof.
-  intros [rep rfc] i g acc Hv Hg mn0 m H. cbn in Hv. subst rep. unfold lcp_apply.
+  intros [rep rfc td] i g acc Hv Hg mn0 m H. cbn in Hv. subst rep. unfold lcp_apply.
   specialize (Hg (lcp (ms m))). destruct (g (lcp (ms m))) as [f' acts]. cbn [fst snd] in Hg.
   unfold lcp_class in Hg. destruct (opb (fs (lcp (ms m)))) eqn:Ea, (opb (fs f')) eqn:Eb.
   - apply lcp_fold_neutral; auto. eapply W_upd; [exact H|]. intros mn K. apply Inv_set_lcp; auto.
